@@ -134,7 +134,7 @@ func genAliasGRPC(r *vh.Rand) string {
 				fs = append(fs, key+`"`+genTmpl(r, pp)+`"`)
 			}
 		}
-		defs = append(defs, fmt.Sprintf("%s;%s;%s;%s;%s;%s", vh.HexS(name), vh.HexS(fmt.Sprintf("tg%d", i)), vh.HexS(m.name),
+		defs = append(defs, fmt.Sprintf("%s;%s;%s;%s;%s;%s", vh.HexS(name), vh.HexS(r.Pick([]string{"", "t", "t", "same", fmt.Sprintf("tg%d", i)})), vh.HexS(m.name),
 			genMetaT(r, mdKeys, pp, grpcLits), vh.HexS("{"+strings.Join(fs, ", ")+"}"), vh.B(i == 0)))
 	}
 	return fmt.Sprintf("agrpc %d %d %s %s %s %s", ninst, r.PickInt([]int{0, 3000}), genOrder(r, ninst), genUsers(r),
